@@ -338,7 +338,11 @@ func checkC03(c *Check) {
 
 	// ---- R5
 	vals := idpValidators(R)
-	c.Obl(len(vals) >= 2, "C03.R5", "validators", "-", fmt.Sprintf("%d IdP-response validators", len(vals)), "IdP-response validators not found")
+	nVal := len(vals)
+	if nVal == 1 && R.Callback != nil && R.Refresh != nil && len(callsToFn(R.Callback, vals[0])) > 0 && len(callsToFn(R.Refresh, vals[0])) > 0 {
+		nVal = 2 // one validator shared by the login and the refresh path
+	}
+	c.Obl(nVal >= 2, "C03.R5", "validators", "-", fmt.Sprintf("%d IdP-response validators", len(vals)), "IdP-response validators not found")
 	for _, v := range vals {
 		okFold := false
 		for _, ci := range callsToDeep(v, 2, "strings.EqualFold") {
@@ -356,13 +360,13 @@ func checkC03(c *Check) {
 		okExp := true
 		for _, vf := range deepFuncs(v, 2) {
 			for _, b := range vf.Blocks {
-			for _, ins := range b.Instrs {
-				if bo, isB := ins.(*ssa.BinOp); isB && depFields(bo.X)["ExpiresIn"] {
-					if k, isK := constInt(bo.Y); isK && !(bo.Op == token.LSS && k == 0) {
-						okExp = false
+				for _, ins := range b.Instrs {
+					if bo, isB := ins.(*ssa.BinOp); isB && depFields(bo.X)["ExpiresIn"] {
+						if k, isK := constInt(bo.Y); isK && !(bo.Op == token.LSS && k == 0) {
+							okExp = false
+						}
 					}
 				}
-			}
 			}
 		}
 		c.Obl(okExp, "C03.R5", "expires-in/"+fnKey(v), P.Pos(v.Pos()), "only a negative expires_in is rejected", "the validator rejects an absent (zero) expires_in")
@@ -562,9 +566,11 @@ func checkC11(c *Check) {
 						continue
 					}
 					s := ins.(*ssa.Store)
-					sfs := FactsOf(rf).At(s)
-					for _, l := range Leaves(s.Val, leafOpts{noConcat: true}) {
-						l = resolveCell(l)
+					// each alternative of the stored value is judged under the facts of the edge that selects it (a value
+					// chosen by a small selector — `if v == "" { use old } else { use v }` merged into one assignment)
+					for _, alt := range phiAlternatives(rf, s.Val, s) {
+						sfs := alt.Facts
+						l := resolveCell(stripConv(alt.V))
 						base, f, isF := fieldLoad(l)
 						switch {
 						case isF && f != nil && resolveCell(stripConv(base)) == ssa.Value(oldTok):
@@ -702,7 +708,6 @@ func checkC11(c *Check) {
 	_ = strParams
 }
 
-
 // lastStoreIsOld: is there a path, consistent with atoms, from entry to a non-nil return on which the last
 // store into field fld of the merged object takes its value from the stored tokens (parameter old)?
 func lastStoreIsOld(fn *ssa.Function, atoms atomEnv, fld string, old *ssa.Parameter) bool {
@@ -719,9 +724,19 @@ func lastStoreIsOld(fn *ssa.Function, atoms atomEnv, fld string, old *ssa.Parame
 		if f == nil || f.Name() != fld {
 			return false, false
 		}
-		for _, l := range Leaves(s.Val, leafOpts{noConcat: true}) {
-			if base, lf, okf := fieldLoad(resolveCell(l)); okf && lf != nil && resolveCell(stripConv(base)) == ssa.Value(old) {
-				return true, true
+		// an alternative of a merged value counts only if the edge that selects it is consistent with the assumed
+		// atoms (`v := new; if new == "" { v = old }; merged.F = v` never stores the old value when new != "")
+		for _, alt := range phiAlternatives(fn, s.Val, s) {
+			if base, lf, okf := fieldLoad(resolveCell(stripConv(alt.V))); okf && lf != nil && resolveCell(stripConv(base)) == ssa.Value(old) {
+				consistent := true
+				for a, want := range atoms {
+					if pol, known := alt.Facts[a]; known && pol != want {
+						consistent = false
+					}
+				}
+				if consistent {
+					return true, true
+				}
 			}
 		}
 		return true, false
@@ -754,7 +769,6 @@ func lastStoreIsOld(fn *ssa.Function, atoms atomEnv, fld string, old *ssa.Parame
 	}
 	return false
 }
-
 
 // c03R7 classifies every `invalid` return of the validators by the facts that dominate it.
 func c03R7(c *Check, R *Roles, m *hModel) {
@@ -910,6 +924,48 @@ func c03R7(c *Check, R *Roles, m *hModel) {
 					for d := range dataDeps(last) {
 						if gc, isCall := d.(*ssa.Call); isCall && isCallTo(gc, idOIDCConfig+".GetAccessToken") {
 							okCfg = true
+						}
+					}
+					// … or with a boolean parameter that every caller computes from GetAccessToken() (or passes as the
+					// constant false): one validator shared by the login and the refresh path
+					if !okCfg {
+						conds := []ssa.Value{last}
+						for cond := range FactsOf(fn).At(r) {
+							conds = append(conds, cond)
+						}
+						for _, cond := range conds {
+							for d := range dataDeps(cond) {
+								p, isP := d.(*ssa.Parameter)
+								if !isP || p.Parent() != fn || !isBool(p.Type()) {
+									continue
+								}
+								idx := -1
+								for k, q := range fn.Params {
+									if q == p {
+										idx = k
+									}
+								}
+								sites := callsToFn2(c.P, fn)
+								all := len(sites) > 0 && idx >= 0
+								for _, cs := range sites {
+									a := cs.Common().Args[idx]
+									if b, isK := constBool(a); isK && !b {
+										continue
+									}
+									dep := false
+									for ad := range dataDeps(a) {
+										if gc, isCall := ad.(*ssa.Call); isCall && isCallTo(gc, idOIDCConfig+".GetAccessToken") {
+											dep = true
+										}
+									}
+									if !dep {
+										all = false
+									}
+								}
+								if all {
+									okCfg = true
+								}
+							}
 						}
 					}
 					if !okCfg {
@@ -1107,31 +1163,31 @@ func loopExitOverAudience(P *Program, R *Roles, v *ssa.Function, cond ssa.Value)
 // comparison having answered true. Filed under C03.R5 and C11.R3.
 func tokenTypeDecisive(c *Check, rule string, v *ssa.Function) {
 	P := c.P
-		// … and the comparison is decisive: every accepting return of the function that holds the comparison lies
-		// behind the EqualFold call and is unreachable when it answered false (an answer without token_type, or
-		// with another type, is not accepted — `tokenType != "" && !EqualFold(…)` would let an error document
-		// that happens to be served with status 200 pass as a token response)
-		for _, ci := range callsToDeep(v, 2, "strings.EqualFold") {
-			cc, isCall := ci.(*ssa.Call)
-			if !isCall || !(depFields(cc.Common().Args[0])["TokenType"] || depFields(cc.Common().Args[1])["TokenType"]) {
-				continue
-			}
-			hf := cc.Parent()
-			accepting := func(i ssa.Instruction) bool {
-				r, ok := i.(*ssa.Return)
-				if !ok || len(r.Results) != 1 {
-					return false
-				}
-				b, isC := constBool(r.Results[0])
-				return !isC || b
-			}
-			decisive := existsPath(hf, atomEnv{cc: false}, accepting, nil) == nil
-			for _, r := range returnsOf(hf) {
-				if accepting(r) && !mustPassBefore(hf, r, func(i ssa.Instruction) bool { return i == ssa.Instruction(cc) }) {
-					decisive = false
-				}
-			}
-			c.Obl(decisive, rule, "token-type-decisive/"+fnKey(v), P.Pos(cc.Pos()), "no accepting return without token_type having been found to be Bearer",
-				"an accepting return of "+fnKey(hf)+" is reachable without the token_type comparison having answered true (a missing token_type is accepted)")
+	// … and the comparison is decisive: every accepting return of the function that holds the comparison lies
+	// behind the EqualFold call and is unreachable when it answered false (an answer without token_type, or
+	// with another type, is not accepted — `tokenType != "" && !EqualFold(…)` would let an error document
+	// that happens to be served with status 200 pass as a token response)
+	for _, ci := range callsToDeep(v, 2, "strings.EqualFold") {
+		cc, isCall := ci.(*ssa.Call)
+		if !isCall || !(depFields(cc.Common().Args[0])["TokenType"] || depFields(cc.Common().Args[1])["TokenType"]) {
+			continue
 		}
+		hf := cc.Parent()
+		accepting := func(i ssa.Instruction) bool {
+			r, ok := i.(*ssa.Return)
+			if !ok || len(r.Results) != 1 {
+				return false
+			}
+			b, isC := constBool(r.Results[0])
+			return !isC || b
+		}
+		decisive := existsPath(hf, atomEnv{cc: false}, accepting, nil) == nil
+		for _, r := range returnsOf(hf) {
+			if accepting(r) && !mustPassBefore(hf, r, func(i ssa.Instruction) bool { return i == ssa.Instruction(cc) }) {
+				decisive = false
+			}
+		}
+		c.Obl(decisive, rule, "token-type-decisive/"+fnKey(v), P.Pos(cc.Pos()), "no accepting return without token_type having been found to be Bearer",
+			"an accepting return of "+fnKey(hf)+" is reachable without the token_type comparison having answered true (a missing token_type is accepted)")
+	}
 }
